@@ -144,6 +144,12 @@ theorem decompress_capacity_iff (t : Table) (h : WellFormed t) (input : List UIn
       ∀ cap' out, decompress t input cap' = .ok out → cap < out.length :=
   Tw.Huffman.decompress_capacity_iff t h input cap
 
+/-- `decompressFast` (the remaining capacity carried along instead of `out.length` at every byte) is a
+faster evaluation of the same function, for every table, input and capacity — for drivers whose sweeps
+are dominated by runaway decodings into large buffers. -/
+theorem decompressFast_is_decompress (t : Table) (input : List UInt8) (cap : Nat) :
+    decompressFast t input cap = decompress t input cap := decompressFast_eq t input cap
+
 /-! ## (4) agreement with the C++ reference (`huffman.cpp`, modelled in `Tw/Model/HuffmanRef.lean`) -/
 
 /-- The reference-compatible output is byte-identical to what `CHuffman::Compress` writes (32-bit
